@@ -125,4 +125,143 @@ theorem fitBlock_ok (cfg : Cfg) (opt : Problem → OptOut) (hopt : ∀ pb, opt p
     · exact ⟨_, rfl⟩
     · exact rounds_ok cfg opt hopt groups pgroups _ n cfg.maxIter 0 _ _ hmax
 
+/-! ## unpacking a vector that lies inside the packed bounds -/
+
+def Within (x : Rat) (b : B × B) : Prop := inB x b = true
+
+/-- What unpacking guarantees for ONE parameter column.  `c0` = the start values (the bounds are
+computed from them), `c1` = the column being overwritten, `c'` = the new column. -/
+def ColOK (groups : Option (List (List Nat))) (m : Nat) (s : Spec) (c0 c1 c' : List Rat) : Prop :=
+  c'.length = c1.length ∧
+  if m = 0 then c' = c1
+  else if m = 1 then
+    Forall₂ (fun x p => inB x (lowOf s p, highOf s p) = true) c' c0
+  else match groupsFor groups m with
+    | none => ∃ v, c' = c1.map (fun _ => v) ∧
+        inB v (minLow (c0.map (lowOf s)), maxHigh (c0.map (highOf s))) = true
+    | some gs => ∃ vs : List Rat,
+        Forall₂ (fun v g =>
+          inB v (minLow (g.map (fun i => (c0.map (lowOf s)).getD i default)),
+                 maxHigh (g.map (fun i => (c0.map (highOf s)).getD i default))) = true) vs gs ∧
+        c' = c1.zipIdx.map (fun (old, i) =>
+          match lastGroup gs i with
+          | none => old
+          | some k => vs.getD k 0)
+
+def ColsOK (groups : Option (List (List Nat))) :
+    List Nat → List Spec → List (List Rat) → List (List Rat) → List (List Rat) → Prop
+  | m :: ms, s :: ss, c0 :: cs0, c1 :: cs1, c' :: cs' =>
+    ColOK groups m s c0 c1 c' ∧ ColsOK groups ms ss cs0 cs1 cs'
+  | _, _, _, _, _ => True
+
+/-- column-wise equal lengths, as far as both blocks go -/
+def Shape : List (List Rat) → List (List Rat) → Prop
+  | a :: as, b :: bs => a.length = b.length ∧ Shape as bs
+  | _, _ => True
+
+theorem seg_length {α} [Inhabited α] (op : List α → α) (groups : Option (List (List Nat)))
+    (m : Nat) (c : List α) : (seg op groups m c).length = width groups m c.length := by
+  unfold seg width
+  split
+  · rfl
+  · split
+    · rfl
+    · cases groupsFor groups m <;> simp
+
+theorem col_ok (groups : Option (List (List Nat))) (m : Nat) (s : Spec) (c0 c1 v : List Rat)
+    (hlen : c0.length = c1.length)
+    (h : Forall₂ Within v (List.zip (seg minLow groups m (c0.map (lowOf s)))
+                                     (seg maxHigh groups m (c0.map (highOf s))))) :
+    ColOK groups m s c0 c1 (newCol groups m v c1) := by
+  unfold ColOK newCol
+  unfold seg at h
+  by_cases h0 : m = 0
+  · simp [h0]
+  · by_cases h1 : m = 1
+    · simp only [h0, h1, if_false, if_true, one_ne_zero] at h ⊢
+      rw [List.zip_map', List.forall₂_map_right_iff] at h
+      exact ⟨by rw [h.length_eq, hlen], h⟩
+    · simp only [h0, h1, if_false] at h ⊢
+      cases hg : groupsFor groups m with
+      | none =>
+        simp only [hg, List.zip_cons_cons, List.zip_nil_right] at h ⊢
+        cases h with
+        | cons hx hrest =>
+          cases hrest
+          refine ⟨by simp, _, by simp, hx⟩
+      | some gs =>
+        simp only [hg] at h ⊢
+        rw [List.zip_map', List.forall₂_map_right_iff] at h
+        exact ⟨by simp, v, h, rfl⟩
+
+theorem unpack_cols_ok (groups : Option (List (List Nat))) :
+    ∀ (modes : List Nat) (specs : List Spec) (block0 block1 : List (List Rat)) (x : List Rat),
+      Shape block0 block1 →
+      Forall₂ Within x (computeBounds specs modes groups block0) →
+      ColsOK groups modes specs block0 block1 (unpackCols groups modes x block1)
+  | [], _, _, _, _, _, _ => by simp [ColsOK]
+  | _ :: _, [], _, _, _, _, _ => by simp [ColsOK]
+  | _ :: _, _ :: _, [], _, _, _, _ => by simp [ColsOK]
+  | _ :: _, _ :: _, _ :: _, [], _, _, _ => by simp [ColsOK]
+  | m :: ms, s :: ss, c0 :: cs0, c1 :: cs1, x, hs, hx => by
+    obtain ⟨hl, hs'⟩ := hs
+    simp only [unpackCols, ColsOK]
+    have hw : width groups m c1.length = (List.zip (seg minLow groups m (c0.map (lowOf s)))
+        (seg maxHigh groups m (c0.map (highOf s)))).length := by
+      simp [seg_length, hl]
+    have hx' : Forall₂ Within x
+        (List.zip (seg minLow groups m (c0.map (lowOf s))) (seg maxHigh groups m (c0.map (highOf s)))
+          ++ computeBounds ss ms groups cs0) := by
+      have : computeBounds (s :: ss) (m :: ms) groups (c0 :: cs0) =
+          List.zip (seg minLow groups m (c0.map (lowOf s))) (seg maxHigh groups m (c0.map (highOf s)))
+            ++ computeBounds ss ms groups cs0 := by
+        simp only [computeBounds, lowCols, highCols, List.zipWith_cons_cons, packCols]
+        rw [List.zip_append (by simp [seg_length])]
+      rw [this] at hx
+      exact hx
+    refine ⟨?_, ?_⟩
+    · rw [hw]
+      exact col_ok groups m s c0 c1 _ hl (List.forall₂_take_append _ _ _ hx')
+    · rw [hw]
+      exact unpack_cols_ok groups ms ss cs0 cs1 _ hs' (List.forall₂_drop_append _ _ _ hx')
+
+theorem shape_nil_right : ∀ b : List (List Rat), Shape b [] := by
+  intro b; cases b <;> simp [Shape]
+
+theorem shape_nil_left : ∀ b : List (List Rat), Shape [] b := by
+  intro b; simp [Shape]
+
+/-- unpacking keeps the column lengths (so the next round works on a block of the same shape) -/
+theorem unpack_shape (groups : Option (List (List Nat))) :
+    ∀ (modes : List Nat) (specs : List Spec) (block0 block1 : List (List Rat)) (x : List Rat),
+      specs.length = modes.length → Shape block0 block1 →
+      Forall₂ Within x (computeBounds specs modes groups block0) →
+      Shape block0 (unpackCols groups modes x block1)
+  | [], _, b0, _, _, _, _, _ => by simpa [unpackCols] using shape_nil_right b0
+  | _ :: _, [], _, _, _, h, _, _ => by simp at h
+  | _ :: _, _ :: _, [], _, _, _, _, _ => shape_nil_left _
+  | _ :: _, _ :: _, b0 :: bs0, [], _, _, _, _ => by
+    simpa [unpackCols] using shape_nil_right (b0 :: bs0)
+  | m :: ms, s :: ss, c0 :: cs0, c1 :: cs1, x, hsm, hs, hx => by
+    have hcols := unpack_cols_ok groups (m :: ms) (s :: ss) (c0 :: cs0) (c1 :: cs1) x hs hx
+    obtain ⟨hl, hs'⟩ := hs
+    simp only [unpackCols, ColsOK] at hcols ⊢
+    have hw : width groups m c1.length = (List.zip (seg minLow groups m (c0.map (lowOf s)))
+        (seg maxHigh groups m (c0.map (highOf s)))).length := by
+      simp [seg_length, hl]
+    have hx' : Forall₂ Within x
+        (List.zip (seg minLow groups m (c0.map (lowOf s))) (seg maxHigh groups m (c0.map (highOf s)))
+          ++ computeBounds ss ms groups cs0) := by
+      have : computeBounds (s :: ss) (m :: ms) groups (c0 :: cs0) =
+          List.zip (seg minLow groups m (c0.map (lowOf s))) (seg maxHigh groups m (c0.map (highOf s)))
+            ++ computeBounds ss ms groups cs0 := by
+        simp only [computeBounds, lowCols, highCols, List.zipWith_cons_cons, packCols]
+        rw [List.zip_append (by simp [seg_length])]
+      rw [this] at hx
+      exact hx
+    refine ⟨by rw [hcols.1.1, hl], ?_⟩
+    rw [hw]
+    exact unpack_shape groups ms ss cs0 cs1 _ (by simpa using hsm) hs'
+      (List.forall₂_drop_append _ _ _ hx')
+
 end TrackpyV.Bounds
